@@ -1342,6 +1342,59 @@ def run_tolinen_reused(ctx, i, rng):
     ctx.check(close(y1, h), 'tolinen.reused:apply_output', lambda: dict(case=desc, got=np.asarray(y1).tolist(), want=np.asarray(h).tolist()))
 
 
+def run_tonnx_custom_box(ctx, i, rng):
+  """A Linen variable boxed in a user-defined AxisMetadata class (public ABC; no from_nnx_metadata): the wrapper keeps the box's own
+  fields as Variable metadata and every call returns what Linen apply returns."""
+  import jax
+  import jax.numpy as jnp
+  import flax.linen as nn
+  from flax import nnx, struct
+  from flax.core import meta
+  from flax.nnx import bridge
+  col = ['params', 'batch_stats'][i % 2]
+  n_calls = 1 + (i // 2) % 3
+  desc = dict(collection=col, calls=n_calls)
+  with ctx.case('tonnx.custom_box', i, desc, nontrivial=True):
+    class Box(struct.PyTreeNode, meta.AxisMetadata):
+      value: jax.Array
+      tag: str = struct.field(pytree_node=False, default='t')
+
+      def unbox(self):
+        return self.value
+
+      def replace_boxed(self, v):
+        return self.replace(value=v)
+
+      def add_axis(self, index, params):
+        return self
+
+      def remove_axis(self, index, params):
+        return self
+
+    class L2(nn.Module):
+      @nn.compact
+      def __call__(self, x):
+        if col == 'params':
+          k = self.param('kernel', lambda key: Box(jax.random.normal(key, (4, 3)), 'hello'))
+        else:
+          k = self.variable('batch_stats', 'kernel', lambda: Box(jnp.full((4, 3), 0.5), 'hello')).value
+        return x @ k
+
+    x = jnp.asarray(np.random.default_rng(i).uniform(-1, 1, (2, 4)).astype(np.float32))
+    V = L2().init(jax.random.key(i), x)
+    want = L2().apply(V, x)
+    try:
+      m = bridge.ToNNX(L2(), rngs=nnx.Rngs(params=jax.random.key(i))).lazy_init(x)
+      ctx.check(m.kernel.get_metadata().get('tag') == 'hello', 'tonnx.metadata:custom_box_fields_lost', lambda: dict(case=desc, meta=repr(m.kernel.get_metadata())[:200]))
+      outs = [m(x) for _ in range(n_calls)]
+      want = L2().apply(bv_vars(m), x)   # Linen apply on the variables the wrapper holds
+    except Exception as e:  # noqa: BLE001
+      ctx.check(False, 'tonnx.custom_axis_metadata:raises', dict(case=desc, error=repr(e)[:300]))
+      return
+    ctx.op('ToNNX(custom AxisMetadata box)')
+    ctx.check(all(close(o, want) for o in outs), 'tonnx.output:custom_box', lambda: dict(case=desc))
+
+
 def run_tonnx_names(ctx, i, rng):
   """Legal Linen namings that collide inside the wrapper's attribute namespace: the same variable name in two collections of one
   module, and a sub-module / variable called like one of the wrapper's own attributes (`module`, `rngs`). Own stream, own mechanisms
@@ -1408,6 +1461,8 @@ def bv_vars(wrapper):
 def run(ctx):
   import jax.numpy as jnp
   from vf.gen import linen_prog as LP
+  for i in ctx.indices(12, 'tonnx.custom_box'):
+    run_tonnx_custom_box(ctx, i, ctx.rng('tonnx.custom_box', i))
   for i in ctx.indices(8, 'tonnx.names'):
     run_tonnx_names(ctx, i, ctx.rng('tonnx.names', i))
   for i in ctx.indices(20 if ctx.tier == 'quick' else 80, 'tolinen.reused'):
